@@ -68,3 +68,9 @@ func c45Check(sandbox, path string) {
 		verifAssert(err != nil, "a path that does not resolve strictly inside the sandbox is refused")
 	}
 }
+
+// VerifC45AbsInside: absolute paths that begin inside the sandbox `/a` and continue with every tail of the case's
+// length over the alphabet (`..`, `.`, `//` steps that climb back out included).
+func VerifC45AbsInside() {
+	c45Check("/a", "/a/"+c45String("tail", verifCase("taillen")))
+}
